@@ -1,4 +1,4 @@
-"""Native replayers: turn a counter-model / bounded case into a run of the real code."""
+"""Native replayers: turn a recorded bounded case (or a counter-model) into a run of the real code."""
 from __future__ import annotations
 
 
@@ -7,7 +7,12 @@ def try_native(pid, result, job, reg):
 
 
 def rerun(rep):
+    """-> (ok, text): ok is True when the real code behaves as the property requires on the recorded input."""
     if rep.get("kind") == "bounded":
-        from . import bounded
-        return bounded.rerun(rep)
+        from native.registry import RERUN
+        fn = RERUN.get(rep.get("check"))
+        if fn is None:
+            return False, f"no replayer registered for {rep.get('check')}"
+        ok, text = fn(rep["input"])
+        return ok, f"{rep.get('check')} / {rep.get('case')}\ninput: {rep['input']}\n{text}\n" + ("property holds on this input" if ok else "PROPERTY VIOLATED on this input")
     return False, "no replayer"
